@@ -226,7 +226,7 @@ func genMalformedInput(r *kern.Rng, maxLen int) scen.InputSpec {
 }
 
 func genPrior(r *kern.Rng, pkg string) scen.Prior {
-	p := scen.Prior{Take: -1}
+	p := scen.Prior{Take: -1, Close: r.Pct(35)}
 	p.In.Parts = []scen.StreamSpec{genStream(r, pkg, 120000, 0)}
 	switch r.Intn(4) {
 	case 0:
@@ -967,6 +967,24 @@ func (c18) ID() string           { return "C18" }
 func (c18) Runs(tier string) int { return tierLen(tier, 4000, 60000) }
 
 func (c18) Gen(r *kern.Rng, tier string, idx int) *Trace {
+	if idx%5 == 4 {
+		// "at every level the compressor's output satisfies all the other
+		// properties": a Writer history checked with C01's and C19's oracles at
+		// the forced level (reported under C18)
+		sc := genFlateW(r, 150000)
+		if sc.Ctor == "dict" {
+			sc.Ctor, sc.Dict = "new", nil // delegated to the stdlib: level-independent, and C01's subject
+		}
+		if r.Pct(80) {
+			sc.Level = r.Pick(1, 2, -1, -2)
+		}
+		if r.Pct(40) {
+			sc.Data.Kind = r.PickS("periodic", "runs", "copies", "text")
+			sc.Data.P1 = r.Pick(1, 2, 3, 4, 5, 7, 8, 100, 259, 300, 4097)
+		}
+		sc.Ops = GenOps(r, sc.Data.Len, r.Pick(0, 0, 10, 40), 100)
+		return &Trace{Property: "C18", Family: "W-plain at the forced level", W: sc}
+	}
 	pkg := "flate"
 	if r.Pct(20) {
 		pkg = r.PickS("gzip", "zlib")
@@ -998,6 +1016,33 @@ func (c18) Gen(r *kern.Rng, tier string, idx int) *Trace {
 }
 
 func (c18) Exec(tr *Trace, keep bool) *Outcome {
+	if tr.W != nil {
+		inner := tr.Clone()
+		inner.Property = "C01"
+		o := c01{}.Exec(inner, keep)
+		o.LevelIndep = false // the compressor may choose different matches per level
+		for i := range o.Violations {
+			o.Violations[i].Oracle = "C18.compressor_" + o.Violations[i].Oracle[4:]
+			if t := o.Violations[i].Trace; t != nil {
+				t.Property, t.Oracle = "C18", o.Violations[i].Oracle
+			}
+		}
+		// window bound at this level
+		if len(o.Violations) == 0 {
+			c := tr.Clone()
+			c.Property = "C19"
+			o19 := c19{}.Exec(c, false)
+			for _, v := range o19.Violations {
+				v.Oracle = "C18.compressor_" + v.Oracle[4:]
+				if v.Trace != nil {
+					v.Trace.Property, v.Trace.Oracle = "C18", v.Oracle
+				}
+				o.Violations = append(o.Violations, v)
+			}
+		}
+		o.stat("compressor_runs_at_forced_level", 1)
+		return o
+	}
 	o := &Outcome{}
 	sc := tr.R
 	rec, log := runR(sc, true, keep)
@@ -1016,4 +1061,9 @@ func (c18) Exec(tr *Trace, keep bool) *Outcome {
 	return o
 }
 
-func (c18) Shrinks(tr *Trace) []*Trace { return shrinkTraceR(tr) }
+func (c18) Shrinks(tr *Trace) []*Trace {
+	if tr.W != nil {
+		return shrinkTraceW(tr)
+	}
+	return shrinkTraceR(tr)
+}
